@@ -141,6 +141,15 @@ Theorem C08_range_bounded : forall start stop incr l,
 Proof. exact range_bounded. Qed.
 Print Assumptions C08_range_bounded.
 
+(* the accumulator / group context of `rare reduce` (after repair C08-accumulator-index): a group number
+   outside the fields of the sample reads as "" and the look-up makes at most one splitter step per field,
+   whatever number the template names ({9223372036854775807} did not return before the repair) *)
+Theorem C08_acc_index : forall m idx,
+  (0 <= acc_rounds m idx <= Z.of_nat (List.length (acc_fields m))) /\
+  (idx < 0 \/ Z.of_nat (List.length (acc_fields m)) < idx -> acc_get_match m idx = []).
+Proof. intros m idx. split; [exact (acc_rounds_bounded m idx)|exact (acc_get_match_outside m idx)]. Qed.
+Print Assumptions C08_acc_index.
+
 (* the boolean form used on the implementation's outcomes accepts everything the model predicts *)
 Theorem C08_check_sound : forall c,
   (forall n args o, c = CFlat n args o -> has_model n = true /\ oracle_ok n o) -> C08_check c (predict c) = true.
